@@ -220,11 +220,11 @@ terminator yields exactly one IDENTIFIER token whose value is the string, consum
 emits no normalisation receipt — for every environment, lexer state (not at offset 0, not at a fence) and mode. -/
 theorem bare_identifier_step (env : Env) (lenient : Bool) (st : LState) (s rest : Str)
     (hid : isIdentifierText s = true) (hres : hasReservedPrefix s = false) (hterm : TermOK env rest)
-    (hspan : atSpanStart st = false) (hpos : st.pos ≠ 0) :
+    (hspan : atSpanStart st = false) (hpos : st.blank = false) :
     step env lenient st (s ++ rest) = .ok ({ st with
         pos := st.pos + s.length, prev := s.getLast?.orElse (fun _ => st.prev), col := st.col + s.length,
         toks := { type := .identifier, value := .str s, line := st.line, col := st.col } :: st.toks,
-        repairs := (identifierRepairs s st.line st.col).reverse ++ st.repairs }, rest) := by
+        repairs := (identifierRepairs s st.line st.col).reverse ++ st.repairs, blank := false }, rest) := by
   cases s with
   | nil => simp [isIdentifierText] at hid
   | cons c t =>
@@ -251,7 +251,6 @@ theorem bare_identifier_step (env : Env) (lenient : Bool) (st : LState) (s rest 
         (fun _ => hkw ['f', 'a', 'l', 's', 'e'] 'e' (by simp) (by decide) (by decide) (by decide))
         (fun _ => hkw ['n', 'u', 'l', 'l'] 'l' (by simp) (by decide) (by decide) (by decide))
     have hmi := matchIdentifier_identText env lenient c t rest hc ht (by simpa using hl) hterm
-    have hpos' : (st.pos == 0) = false := by simpa using hpos
     have hsp : (c == ' ') = false := identStart_ne c ' ' hc (by decide)
     have heq3 : startsWith "===".toList (c :: (t ++ rest)) = false := by
       have hne : c ≠ '=' := by
@@ -263,7 +262,7 @@ theorem bare_identifier_step (env : Env) (lenient : Bool) (st : LState) (s rest 
     have hplus : (c == '+') = false := identStart_ne c '+' hc (by decide)
     simp only [List.cons_append] at hmi ⊢
     unfold step
-    simp only [hspan, hsp, hpos', hmp, heq3, hplus, hmi, Bool.false_eq_true, if_false, bind, Except.bind, Bool.false_and]
+    simp only [hspan, hsp, hpos, hmp, heq3, hplus, hmi, Bool.false_eq_true, if_false, bind, Except.bind, Bool.false_and]
     simp [List.take_left']
 
 end Octave
